@@ -225,17 +225,34 @@ func decode(c *mon.Ctx, e *ref.EBP) {
 func built(c *mon.Ctx, r *gen.Rand, e *ref.EBP) {
 	// the library's flag setters are set-only, every flag is set at most once
 	var x ebp.EncoderBoundaryPoint
+	// the setters are independent of each other: they are called in a random order, and the time is given
+	// before or after the flags
+	timeFirst := r.Bool()
+	t := ref.NTPInstant(e.Sec, e.Frac)
 	set := func(b ebp.EncoderBoundaryPoint) {
 		f := e.Flags
-		b.SetFragmentFlag(f&0x80 != 0)
-		b.SetSegmentFlag(f&0x40 != 0)
-		b.SetSapFlag(f&0x20 != 0)
-		b.SetGroupingFlag(f&0x10 != 0)
-		b.SetTimeFlag(f&0x08 != 0)
-		b.SetExtensionFlag(f&0x01 != 0)
-		b.SetSap(e.Sap)
+		if timeFirst {
+			b.SetEBPTime(t)
+		}
+		for _, k := range r.Perm(7) {
+			switch k {
+			case 0:
+				b.SetFragmentFlag(f&0x80 != 0)
+			case 1:
+				b.SetSegmentFlag(f&0x40 != 0)
+			case 2:
+				b.SetSapFlag(f&0x20 != 0)
+			case 3:
+				b.SetGroupingFlag(f&0x10 != 0)
+			case 4:
+				b.SetTimeFlag(f&0x08 != 0)
+			case 5:
+				b.SetExtensionFlag(f&0x01 != 0)
+			default:
+				b.SetSap(e.Sap)
+			}
+		}
 	}
-	t := ref.NTPInstant(e.Sec, e.Frac)
 	if e.CableLabs {
 		b := ebp.CreateCableLabsEbp()
 		set(&b)
@@ -246,7 +263,9 @@ func built(c *mon.Ctx, r *gen.Rand, e *ref.EBP) {
 		if e.Flags&0x10 != 0 {
 			b.Grouping = append([]byte{}, e.Groups...)
 		}
-		b.SetEBPTime(t)
+		if !timeFirst {
+			b.SetEBPTime(t)
+		}
 		b.ReservedBytes = append([]byte{}, e.Reserved...)
 		x = &b
 	} else {
@@ -257,7 +276,9 @@ func built(c *mon.Ctx, r *gen.Rand, e *ref.EBP) {
 		if e.Flags&0x10 != 0 {
 			b.Grouping = append([]byte{}, e.Groups[:1]...)
 		}
-		b.SetEBPTime(t)
+		if !timeFirst {
+			b.SetEBPTime(t)
+		}
 		b.ReservedBytes = append([]byte{}, e.Reserved...)
 		x = &b
 	}
